@@ -163,6 +163,11 @@ def rule_idxbound(P) -> RuleResult:
                         ok = False
         if ok:
             res.ok({'clause': clause, 'function': fi.fq, 'positions_tested': [0, 1, N, N + 1, -1], 'domain': domain})
+    groupby_order_part(P, res)
+    return res
+
+
+def groupby_order_part(P, res):
     # GROUP BY is resolved before any invisible target exists
     sel = _select_method(P)
     calls = [n for n in ast.walk(sel.node) if isinstance(n, ast.Call) and unparse(n.func) == 'self._compile_group_by']
@@ -179,7 +184,6 @@ def rule_idxbound(P) -> RuleResult:
             res.ok({'clause': 'GROUP BY', 'resolved_on': 'targets of the SELECT list only'})
     else:
         raise AnalysisError(f'{sel.fq}: call of _compile_group_by not understood')
-    return res
 
 
 def _select_method(P):
@@ -226,60 +230,14 @@ def rule_hidden(P) -> RuleResult:
                 res.ok({'site': fi.fq, 'name': None})
     if named != 1:
         raise AnalysisError('EvalTarget site in _compile_targets not found')
-    # helper targets are appended after the visible ones
-    sel = _select_method(P)
-    tdefs = [n for n in sel.node.body if isinstance(n, ast.Assign) and isinstance(n.value, ast.Call)
-             and unparse(n.value.func) == 'self._compile_targets']
-    tv = unparse(tdefs[0].targets[0]) if tdefs else None
-    muts = [n for n in ast.walk(sel.node) if isinstance(n, ast.Call) and isinstance(n.func, ast.Attribute)
-            and unparse(n.func.value) == tv and n.func.attr in ('extend', 'append', 'insert', 'sort', 'reverse', 'pop', 'remove')]
-    for n in muts:
-        if n.func.attr != 'extend':
-            res.fail(f'{sel.fq}:targets-list', 'hidden:position', f'`{unparse(n)[:50]}` changes the positions of the visible '
-                     f'targets; helper targets must be appended', loc(sel, n))
-    if len([n for n in muts if n.func.attr == 'extend']) >= 2:
-        res.ok({'site': sel.fq, 'helpers': 'appended with extend()'})
-    for meth in ('_compile_group_by', '_compile_order_by'):
-        fi = _method(P, meth)
-        rets = [n for n in ast.walk(fi.node) if isinstance(n, ast.Return) and n.value is not None]
-        good = any('new_targets[len(' in unparse(r) for r in rets)
-        ins = [n for n in ast.walk(fi.node) if isinstance(n, ast.Call) and isinstance(n.func, ast.Attribute)
-               and n.func.attr == 'insert' and 'targets' in unparse(n.func.value)]
-        if ins:
-            res.fail(f'{fi.fq}:new-targets', 'hidden:position', f'`{unparse(ins[0])[:50]}` inserts a helper target among the visible ones',
-                     loc(fi, ins[0]))
-        elif good:
-            res.ok({'site': fi.fq, 'returns': 'only the targets added after the existing ones'})
-    # naming priority
-    gtn = P.func(CO, 'get_target_name')
-    tp = gtn.params[0]
-    ok = True
-    for alias in (None, 'ALIAS'):
-        for is_col in (True, False):
-            def exprh(e, st, mm, _alias=alias):
-                s = unparse(e)
-                if s == f'{tp}.name':
-                    return _alias
-                return finite.Sym(s)
-            def callh(e, st, mm):
-                return finite.Sym('CALL:' + unparse(e))
-            mach = finite.Machine(expr=exprh, call=callh, isinstance_=lambda v, c, _c=is_col: _c if unparse(c).endswith('Column') else False,
-                                  names={tp: finite.Sym(tp)})
-            try:
-                mach.run(body_without_docstring(gtn.node), {})
-                got = None
-            except finite.Return as r:
-                got = r.value
-            want = 'ALIAS' if alias else finite.Sym(f'{tp}.expression.name') if is_col else finite.Sym(f'CALL:{tp}.expression.text.strip()')
-            if got != want:
-                ok = False
-                res.fail(gtn.fq, f'hidden:naming:{"alias" if alias else "noalias"}:{"column" if is_col else "expr"}',
-                         f'target name with alias {"present" if alias else "absent"} and a '
-                         f'{"bare column" if is_col else "general expression"}: got {got!r}, must be '
-                         f'{"the alias" if alias else "the column name" if is_col else "the stripped source text of the expression"}',
-                         loc(gtn))
-    if ok:
-        res.ok({'function': gtn.fq, 'priority': 'alias > column name > expression text', 'cases': 4})
+    # helper targets are appended after the visible ones: decided on the paths of _compile_select
+    from .sx_compiler import targets_flow_cases
+    targets_flow_cases(P, res, 'hidden')
+    from .sx_compiler import helper_target_cases
+    helper_target_cases(P, res)
+    # naming priority: decided on the paths of get_target_name
+    from .sx_compiler import naming_cases
+    naming_cases(P, res)
     return res
 
 
